@@ -79,7 +79,13 @@ def new_spec(kind, semantics='standard'):
     if kind == 'ct':
         return rtamt.StlDenseTimeSpecification(semantics=sem)
     if semantics != 'standard':
-        raise ValueError('semantics only on dt/ct')
+        # the dedicated offline-only / online-only classes of the interface-aware semantics
+        import importlib
+        mod = importlib.import_module('rtamt.spec.iastl.%s.specification' % ('discrete_time' if kind.startswith('dt') else 'dense_time'))
+        name = 'IAStl%s%sTime%sSpecification' % (''.join(w.capitalize() for w in semantics.replace('-', '_').split('_')),
+                                                 'Discrete' if kind.startswith('dt') else 'Dense',
+                                                 'Offline' if kind.endswith('off') else 'Online')
+        return getattr(mod, name)()
     if kind == 'dt_off':
         return rtamt.StlDiscreteTimeOfflineSpecification()
     if kind == 'dt_on':
